@@ -220,10 +220,8 @@ func suiteV04(c *vctx) {
 				// an unauthenticated bind, which the client library refuses to send)
 				if ldapAddr != "" && p != "" && u != "" && ldapWire < 120 && len(u) < 1000 {
 					ldapWire++
-					if cn, err := ldap.DialTimeout("tcp", ldapAddr, 2*time.Second); err == nil {
-						berr := cn.Bind(u, p)
-						cn.Close()
-						c.emit("law.C04.ldap_wire_bind_equals_store_for_name_up_to_at "+id, vtf((berr == nil) == lref))
+					if acc, got := ldapBindVerdict(ldapAddr, u, p); got {
+						c.emit("law.C04.ldap_wire_bind_equals_store_for_name_up_to_at "+id, vtf(acc == lref))
 					}
 				}
 			}
